@@ -242,4 +242,51 @@ def r3_attribute_names(a, tier):
     return rep
 
 
-RULES = [r1_child_discovery, r2_traversals, r3_attribute_names]
+def r4_declared_bases(a, tier):
+    import itertools
+    rep = RuleReport(
+        'C07.R4',
+        'a typed rule `rule::Derived::Base1::Base2` builds its node from a class whose bases are the declared chain: '
+        'ModelBuilderSemantics._default, interpreted with a stand-in builder for every subset of {Derived, Base1, Base2} already '
+        'known to the builder, asks for each class of the chain with the previous one as base (outermost first) and instantiates '
+        'the class whose MRO is Derived, Base1, Base2, <base type> - whatever was registered before',
+        floor=8,
+    )
+    fn = a.p.func('tatsu.objectmodel.builder.ModelBuilderSemantics._default')
+    BASE = type('Node', (), {})
+    chain = ['Derived', 'Base1', 'Base2']
+    for k in range(0, 4):
+        for known in itertools.combinations(chain, k):
+            calls = []
+            made = {}
+
+            def get_ctor(name, base=None, made=made, calls=calls):
+                calls.append((name, getattr(base, '__name__', repr(base))))
+                if name not in made:
+                    made[name] = type(name, (base,), {})
+                return made[name]
+            inst = []
+            builder = Stub('tatsu.objectmodel.builder.ModelBuilder',
+                           _get_constructor=Hook(get_ctor),
+                           _find_existing_constructor=Hook(lambda name, *_a, known=known: (lambda: None) if name in known else None),
+                           _instanceof=Hook(lambda typename, *_a, base=None, **_k: inst.append((typename, base)) or 'node'))
+            me = Stub('tatsu.objectmodel.builder.ModelBuilderSemantics', _builder=builder, builder=builder,
+                      config=Stub('tatsu.objectmodel.builder.BuilderConfig', basetype=BASE))
+            it = ModelInterp(a, {'type': type, 'mangle': Hook(lambda s_: s_)})
+            try:
+                it.call_fn(fn, [me, {'x': 1}, '::'.join(chain)])
+            except Unsupported as e:
+                raise AnalysisError(f'cannot interpret {fn.qualname}: {e}') from e
+            got = [c.__name__ for c in inst[0][1].__mro__ if c is not object] if inst and isinstance(inst[0][1], type) else None
+            want = [*chain, 'Node']
+            ok = got == want and inst[0][0] == 'Derived'
+            rep.add({'already_known_to_the_builder': list(known), 'constructor_requests': calls, 'instantiated_class_mro': got, 'ok': ok})
+            if not ok:
+                rep.fail(fn.qualname, f'bases:{",".join(known) or "none"}', f'for `rule::{"::".join(chain)}` with {list(known) or "nothing"} already '
+                         f'known to the builder, the node class requested has the MRO {got} (constructor requests {calls}); declared: {want}: '
+                         f'walkers keyed on a declared base never see the node, and the class differs from the generated model module',
+                         fn.loc)
+    return rep
+
+
+RULES = [r1_child_discovery, r2_traversals, r3_attribute_names, r4_declared_bases]
